@@ -142,6 +142,231 @@ fn broker_packet(t: &[&str]) -> Packet {
     }
 }
 
+
+// ---------------------------------------------------------------------------------------------
+// keep-alive scenarios (C18): the real event loop polled continuously ("prompt polling") against a
+// scripted broker, under paused tokio time; every timestamp is virtual ms since the scenario began.
+//   KA <ver> <ka_ms> <delays,..> <silent_from> <none|up|down> <period_ms> <horizon_ms> [<server_keep_alive_s>]
+//      -> KA C@<t> PINGS[<t> ..] RESPS[<t> ..] END <ERROR <kind>|HORIZON>@<t>
+//   KACONN <ver> <timeout_s> <handshake_ms|never>
+//      -> KACONN CONNECTED@<t> | KACONN ERROR <kind>@<t>
+struct KaArgs {
+    ka_ms: u64,
+    delays: Vec<u64>,
+    silent_from: usize,
+    traffic: String,
+    period: u64,
+    horizon: u64,
+    server_ka: Option<u16>,
+}
+
+fn ka_args(t: &[&str]) -> KaArgs {
+    KaArgs {
+        ka_ms: t[2].parse().unwrap(),
+        delays: t[3].split(',').map(|x| x.parse().unwrap()).collect(),
+        silent_from: t[4].parse().unwrap(),
+        traffic: t[5].to_string(),
+        period: t[6].parse().unwrap(),
+        horizon: t[7].parse().unwrap(),
+        server_ka: if t.len() > 8 { Some(t[8].parse().unwrap()) } else { None },
+    }
+}
+
+fn ms(start: tokio::time::Instant) -> u64 {
+    (tokio::time::Instant::now() - start).as_millis() as u64
+}
+
+macro_rules! ka_scenario {
+    ($name:ident, $netty:ty, $mknet:expr, $client:ty, $evloop:ty, $newclient:expr, $opts:expr, $connack:expr,
+     $is_ping:expr, $pingresp:expr, $down:expr, $up:expr, $is_connack:expr, $err:expr) => {
+        async fn $name(a: KaArgs, next_socket: &Rc<RefCell<Option<DuplexStream>>>) -> String {
+            let start = tokio::time::Instant::now();
+            let (client_end, broker_end) = tokio::io::duplex(1 << 20);
+            *next_socket.borrow_mut() = Some(client_end);
+            let mut bn: $netty = $mknet(broker_end);
+            let _ = bn.write($connack(a.server_ka)).await;
+            let _ = bn.flush().await;
+            let (client, mut el): ($client, $evloop) = $newclient($opts(a.ka_ms));
+            let pings: RefCell<Vec<u64>> = RefCell::new(vec![]);
+            let resps: RefCell<Vec<u64>> = RefCell::new(vec![]);
+            let conn_at: RefCell<Option<u64>> = RefCell::new(None);
+            let client_fut = async {
+                loop {
+                    match el.poll().await {
+                        Ok(ev) => {
+                            if $is_connack(&ev) && conn_at.borrow().is_none() {
+                                *conn_at.borrow_mut() = Some(ms(start));
+                            }
+                        }
+                        Err(e) => return (($err)(&e), ms(start)),
+                    }
+                }
+            };
+            let broker_fut = async {
+                let mut due: std::collections::VecDeque<u64> = Default::default();
+                let mut next_down = a.period;
+                let mut k = 0usize;
+                loop {
+                    let reply_at = due.front().copied();
+                    tokio::select! {
+                        biased;
+                        p = bn.read() => match p {
+                            Ok(p) => {
+                                if $is_ping(&p) {
+                                    let t = ms(start);
+                                    pings.borrow_mut().push(t);
+                                    k += 1;
+                                    if a.silent_from == 0 || k < a.silent_from {
+                                        due.push_back(t + a.delays[(k - 1) % a.delays.len()]);
+                                    }
+                                }
+                            }
+                            Err(_) => std::future::pending::<()>().await,
+                        },
+                        _ = tokio::time::sleep_until(start + Duration::from_millis(reply_at.unwrap_or(0))), if reply_at.is_some() => {
+                            due.pop_front();
+                            resps.borrow_mut().push(ms(start));
+                            let _ = bn.write($pingresp).await;
+                            let _ = bn.flush().await;
+                        }
+                        _ = tokio::time::sleep_until(start + Duration::from_millis(next_down)), if a.traffic == "down" => {
+                            next_down += a.period;
+                            let _ = bn.write($down).await;
+                            let _ = bn.flush().await;
+                        }
+                    }
+                }
+            };
+            let up_fut = async {
+                if a.traffic == "up" {
+                    let mut next = a.period;
+                    loop {
+                        tokio::time::sleep_until(start + Duration::from_millis(next)).await;
+                        next += a.period;
+                        let _ = ($up)(&client);
+                    }
+                } else {
+                    std::future::pending::<()>().await
+                }
+            };
+            let end = tokio::select! {
+                biased;
+                r = client_fut => format!("ERROR {}@{}", r.0, r.1),
+                _ = broker_fut => unreachable!(),
+                _ = up_fut => unreachable!(),
+                _ = tokio::time::sleep_until(start + Duration::from_millis(a.horizon)) => format!("HORIZON@{}", ms(start)),
+            };
+            let f = |v: &RefCell<Vec<u64>>| v.borrow().iter().map(|x| x.to_string()).collect::<Vec<_>>().join(" ");
+            let c = conn_at.borrow().map(|x| x.to_string()).unwrap_or("-".into());
+            format!("KA C@{} PINGS[{}] RESPS[{}] END {}", c, f(&pings), f(&resps), end)
+        }
+    };
+}
+
+fn opts4(ka_ms: u64) -> MqttOptions {
+    let mut o = MqttOptions::new("verif", "localhost", 1883);
+    o.set_keep_alive(Duration::from_millis(ka_ms));
+    o
+}
+fn opts5(ka_ms: u64) -> rumqttc::v5::MqttOptions {
+    let mut o = rumqttc::v5::MqttOptions::new("verif", "localhost", 1883);
+    o.set_keep_alive(Duration::from_millis(ka_ms));
+    o
+}
+fn err5(e: &rumqttc::v5::ConnectionError) -> String {
+    use rumqttc::v5::{ConnectionError as CE, StateError as SE};
+    match e {
+        CE::MqttState(SE::AwaitPingResp) => "AwaitPingResp".into(),
+        CE::MqttState(SE::CollisionTimeout) => "CollisionTimeout".into(),
+        CE::MqttState(SE::ConnectionAborted) => "ConnectionAborted".into(),
+        CE::Timeout(_) => "NetworkTimeout".into(),
+        other => format!("Other:{}", format!("{other:?}").split(|c: char| !c.is_alphanumeric()).next().unwrap_or("")),
+    }
+}
+fn connack5(server_ka: Option<u16>) -> rumqttc::v5::mqttbytes::v5::Packet {
+    use rumqttc::v5::mqttbytes::v5 as m;
+    let properties = server_ka.map(|k| m::ConnAckProperties {
+        session_expiry_interval: None, receive_max: None, max_qos: None, retain_available: None, max_packet_size: None,
+        assigned_client_identifier: None, topic_alias_max: None, reason_string: None, user_properties: vec![],
+        wildcard_subscription_available: None, subscription_identifiers_available: None, shared_subscription_available: None,
+        server_keep_alive: Some(k), response_information: None, server_reference: None, authentication_method: None,
+        authentication_data: None,
+    });
+    m::Packet::ConnAck(m::ConnAck { session_present: false, code: m::ConnectReturnCode::Success, properties })
+}
+
+ka_scenario!(
+    ka4, Network, |s: DuplexStream| Network::new(s, 1 << 20, 1 << 20), AsyncClient, EventLoop,
+    |o: MqttOptions| AsyncClient::new(o, 1000), opts4,
+    |_k: Option<u16>| Packet::ConnAck(ConnAck::new(ConnectReturnCode::Success, false)),
+    |p: &Packet| matches!(p, Packet::PingReq), Packet::PingResp,
+    Packet::Publish(Publish::new("d", QoS::AtMostOnce, vec![1u8])),
+    |c: &AsyncClient| c.try_publish("u", QoS::AtMostOnce, false, vec![1u8]),
+    |e: &Event| matches!(e, Event::Incoming(Packet::ConnAck(_))), error_s
+);
+ka_scenario!(
+    ka5, rumqttc::verif::NetworkV5, |s: DuplexStream| rumqttc::verif::NetworkV5::new(s, Some(1 << 20)),
+    rumqttc::v5::AsyncClient, rumqttc::v5::EventLoop,
+    |o: rumqttc::v5::MqttOptions| rumqttc::v5::AsyncClient::new(o, 1000), opts5, connack5,
+    |p: &rumqttc::v5::mqttbytes::v5::Packet| matches!(p, rumqttc::v5::mqttbytes::v5::Packet::PingReq(_)),
+    rumqttc::v5::mqttbytes::v5::Packet::PingResp(rumqttc::v5::mqttbytes::v5::PingResp),
+    rumqttc::v5::mqttbytes::v5::Packet::Publish(rumqttc::v5::mqttbytes::v5::Publish::new("d", rumqttc::v5::mqttbytes::QoS::AtMostOnce, vec![1u8], None)),
+    |c: &rumqttc::v5::AsyncClient| c.try_publish("u", rumqttc::v5::mqttbytes::QoS::AtMostOnce, false, vec![1u8]),
+    |e: &rumqttc::v5::Event| matches!(e, rumqttc::v5::Event::Incoming(rumqttc::v5::mqttbytes::v5::Packet::ConnAck(_))), err5
+);
+
+/// the connect step alone: the broker answers the CONNECT after `handshake` ms, or never
+async fn kaconn(ver: &str, timeout_s: u64, handshake: Option<u64>, next_socket: &Rc<RefCell<Option<DuplexStream>>>) -> String {
+    let start = tokio::time::Instant::now();
+    let (client_end, broker_end) = tokio::io::duplex(1 << 20);
+    *next_socket.borrow_mut() = Some(client_end);
+    let res = if ver == "4" {
+        let mut bn = Network::new(broker_end, 1 << 20, 1 << 20);
+        let (_c, mut el) = AsyncClient::new(opts4(60_000), 10);
+        let mut no = NetworkOptions::new();
+        no.set_connection_timeout(timeout_s);
+        el.set_network_options(no);
+        let broker = async {
+            match handshake {
+                Some(h) => {
+                    tokio::time::sleep_until(start + Duration::from_millis(h)).await;
+                    let _ = bn.write(Packet::ConnAck(ConnAck::new(ConnectReturnCode::Success, false))).await;
+                    let _ = bn.flush().await;
+                    std::future::pending::<()>().await
+                }
+                None => std::future::pending::<()>().await,
+            }
+        };
+        tokio::select! {
+            biased;
+            r = el.poll() => match r { Ok(_) => format!("CONNECTED@{}", ms(start)), Err(e) => format!("ERROR {}@{}", error_s(&e), ms(start)) },
+            _ = broker => unreachable!(),
+        }
+    } else {
+        let mut bn = rumqttc::verif::NetworkV5::new(broker_end, Some(1 << 20));
+        let mut o = opts5(60_000);
+        o.set_connection_timeout(timeout_s);
+        let (_c, mut el) = rumqttc::v5::AsyncClient::new(o, 10);
+        let broker = async {
+            match handshake {
+                Some(h) => {
+                    tokio::time::sleep_until(start + Duration::from_millis(h)).await;
+                    let _ = bn.write(connack5(None)).await;
+                    let _ = bn.flush().await;
+                    std::future::pending::<()>().await
+                }
+                None => std::future::pending::<()>().await,
+            }
+        };
+        tokio::select! {
+            biased;
+            r = el.poll() => match r { Ok(_) => format!("CONNECTED@{}", ms(start)), Err(e) => format!("ERROR {}@{}", err5(&e), ms(start)) },
+            _ = broker => unreachable!(),
+        }
+    };
+    format!("KACONN {}", res)
+}
+
 struct Broker {
     net: Option<Network>,
 }
@@ -243,6 +468,14 @@ async fn run() {
                 };
                 let w = broker.borrow_mut().received();
                 format!("{} WIRE[{}]", head, w.join(" "))
+            }
+            "KA" => {
+                let a = ka_args(&t);
+                if t[1] == "4" { ka4(a, &next_socket).await } else { ka5(a, &next_socket).await }
+            }
+            "KACONN" => {
+                let h = if t[3] == "never" { None } else { Some(t[3].parse().unwrap()) };
+                kaconn(t[1], t[2].parse().unwrap(), h, &next_socket).await
             }
             "FINISH" => {
                 let (_, el) = lp.as_mut().unwrap();
